@@ -5,9 +5,9 @@
 (*                                                                             *)
 (* The driver logs digests of the store content (`dump`: every data type read  *)
 (* through the API; `raw`: every record of the engine).  The specification     *)
-(* knows contents only as applied log prefixes, so it learns the digest of a   *)
-(* prefix when it is first reached (dig) and the raw digest of "the data as of *)
-(* index i" when Backup(i) is requested (rawAt), and from then on demands them *)
+(* knows data only as "the effect of log[1..i]", so it learns the digest of     *)
+(* index i when a store first reaches it (dig) and the raw digest of "the data *)
+(* as of index i" when Backup(i) is requested (rawAt), and from then on demands*)
 (* wherever the design says the same data must be present:                     *)
 (*   - after Restore(c), on the same or on a fetching store      (CheckpointExact)    *)
 (*   - in a read-only copy of checkpoint c, at any later time    (CheckpointImmutable)*)
@@ -27,13 +27,13 @@ EXTENDS ZCkpt, Json, IOUtils, TLC
 
 VARIABLES l,       \* next trace line
           bad,     \* a mismatch was seen in the current segment
-          dig,     \* content (log prefix) -> logical digest, learnt at first sight
-          rawAt    \* checkpoint name -> raw engine digest when the backup was requested
+          dig,     \* applied index -> logical digest, learnt at first sight
+          rawAt    \* applied index -> raw engine digest when a backup was requested there
 
 Trace == ndJsonDeserialize(IOEnv.ZR_TRACE)
 E == Trace[l]
 
-tvars == <<content, term, gterm, nextId, ckpts, flight, snapIdx, born, asOf, gone, l, bad, dig, rawAt>>
+tvars == <<log, applied, ckpts, flight, snapIdx, born, gone, l, bad, dig, rawAt>>
 
 TInit == CInit /\ l = 1 /\ bad = FALSE /\ dig = NoNames /\ rawAt = NoNames
 
@@ -48,27 +48,32 @@ Mismatch(what, exp) ==
 
 Keep == UNCHANGED <<bad, dig, rawAt>>
 
-TWrite ==
+TermOk(s) ==
+  IF applied[s] < Len(log) THEN E.t = log[applied[s] + 1]
+  ELSE IF Len(log) = 0 THEN TRUE ELSE E.t >= log[Len(log)]
+
+TApply ==
   LET s == E.s
-      c == Append(content[s], E.id)
-  IN IF ~ApplyLoopRuns(s) THEN Mismatch("write-while-apply-loop-blocked", 0)
-     ELSE IF ~Agrees(c, E.dump) THEN Mismatch("replayed-entries-differ", dig[c])
-     ELSE WriteId(s, E.id) /\ dig' = Learn(c, E.dump) /\ UNCHANGED <<bad, rawAt>>
+  IN IF ~ApplyLoopRuns(s) THEN Mismatch("apply-while-apply-loop-blocked", 0)
+     ELSE IF E.idx # applied[s] + 1 \/ ~TermOk(s) THEN Mismatch("apply-index", applied[s] + 1)
+     ELSE IF ~Agrees(E.idx, E.dump) THEN Mismatch("replayed-entries-differ", dig[E.idx])
+     ELSE Apply(s, E.t) /\ dig' = Learn(E.idx, E.dump) /\ UNCHANGED <<bad, rawAt>>
 
 TCompact ==
   LET s == E.s
-  IN IF ~Agrees(content[s], E.dump) THEN Mismatch("compact-changed-data", dig[content[s]])
-     ELSE Compact(s) /\ dig' = Learn(content[s], E.dump) /\ UNCHANGED <<bad, rawAt>>
+  IN IF ~Agrees(applied[s], E.dump) THEN Mismatch("compact-changed-data", dig[applied[s]])
+     ELSE Compact(s) /\ dig' = Learn(applied[s], E.dump) /\ UNCHANGED <<bad, rawAt>>
 
 TBegin ==
   LET s == E.s
   IN IF ~E.ok THEN UNCHANGED <<cvars, bad, dig, rawAt>>      \* refused: nothing happened
-     ELSE IF Busy(s) \/ E.t # term[s] \/ E.i # Len(content[s]) \/ E.i = 0
-          THEN Mismatch("backup-name", <<term[s], Len(content[s])>>)
-     ELSE IF ~Agrees(content[s], E.dump) THEN Mismatch("backup-request-changed-data", dig[content[s]])
+     ELSE IF Busy(s) \/ E.i # applied[s] \/ E.i = 0 \/ E.t # log[E.i]
+          THEN Mismatch("backup-name", applied[s])
+     ELSE IF ~Agrees(E.i, E.dump) THEN Mismatch("backup-request-changed-data", dig[E.i])
+     ELSE IF E.i \in DOMAIN rawAt /\ rawAt[E.i] # E.raw THEN Mismatch("records-differ-at-same-index", rawAt[E.i])
      ELSE /\ BackupBegin(s)
-          /\ dig'   = Learn(content[s], E.dump)
-          /\ rawAt' = Put(rawAt, Name(E.t, E.i), E.raw)
+          /\ dig'   = Learn(E.i, E.dump)
+          /\ rawAt' = Put(rawAt, E.i, E.raw)
           /\ UNCHANGED bad
 
 \* WaitReady returned: the engine has fixed its view (assumption) and the apply loop runs
@@ -78,7 +83,7 @@ TNotify ==
      ELSE /\ flight' = [flight EXCEPT ![s] =
                           [(IF flight[s].ph = "begun" THEN CutFlight(s) ELSE flight[s])
                              EXCEPT !.notified = TRUE]]
-          /\ UNCHANGED <<content, term, gterm, nextId, ckpts, snapIdx, born, asOf, gone>>
+          /\ UNCHANGED <<log, applied, ckpts, snapIdx, born, gone>>
           /\ Keep
 
 TDone ==
@@ -88,7 +93,7 @@ TDone ==
      ELSE IF E.err # ""
      THEN \* a failed backup records nothing (doing less is allowed)
           /\ flight' = [flight EXCEPT ![s] = Idle]
-          /\ UNCHANGED <<content, term, gterm, nextId, ckpts, snapIdx, born, asOf, gone>>
+          /\ UNCHANGED <<log, applied, ckpts, snapIdx, born, gone>>
           /\ Keep
      ELSE BackupDone(s) /\ Keep
 
@@ -100,9 +105,9 @@ TLs ==
       V == {c \in ckpts[s] : NameOf(c) \notin Listed}
       wrong == {NameOf(c) : c \in {x \in V : ~Purgeable(s, x)}}
   IN IF Busy(s) THEN UNCHANGED <<cvars, bad, dig, rawAt>>
-     ELSE IF extra # {} THEN Mismatch("unknown-checkpoint-directory", extra)
+     ELSE IF extra # {} THEN Mismatch("unknown-checkpoint-directory", Cardinality(extra))
      ELSE IF V = {} THEN UNCHANGED <<cvars, bad, dig, rawAt>>
-     ELSE IF wrong # {} THEN Mismatch("purged-at-or-above-snapshot", <<wrong, snapIdx[s]>>)
+     ELSE IF wrong # {} THEN Mismatch("purged-at-or-above-snapshot", <<Cardinality(wrong), snapIdx[s]>>)
      ELSE Purge(s, V) /\ Keep
 
 TSnap ==
@@ -121,8 +126,8 @@ TRestore ==
           IN IF E.err # "" THEN Mismatch("restore-failed", n)
              ELSE IF ~Known(c.img) \/ dig[c.img] # E.dump
                   THEN Mismatch("restored-data-differ", IF Known(c.img) THEN dig[c.img] ELSE "?")
-             ELSE IF n \notin DOMAIN rawAt \/ rawAt[n] # E.raw
-                  THEN Mismatch("restored-records-differ", IF n \in DOMAIN rawAt THEN rawAt[n] ELSE "?")
+             ELSE IF c.img \notin DOMAIN rawAt \/ rawAt[c.img] # E.raw
+                  THEN Mismatch("restored-records-differ", IF c.img \in DOMAIN rawAt THEN rawAt[c.img] ELSE "?")
              ELSE Restore(s, E.t, E.i) /\ Keep
 
 TCkDump ==
@@ -133,8 +138,8 @@ TCkDump ==
           IN IF E.err # "" THEN Mismatch("checkpoint-unreadable", n)
              ELSE IF ~Known(c.img) \/ dig[c.img] # E.dump
                   THEN Mismatch("checkpoint-data-changed", IF Known(c.img) THEN dig[c.img] ELSE "?")
-             ELSE IF n \notin DOMAIN rawAt \/ rawAt[n] # E.raw
-                  THEN Mismatch("checkpoint-records-changed", IF n \in DOMAIN rawAt THEN rawAt[n] ELSE "?")
+             ELSE IF c.img \notin DOMAIN rawAt \/ rawAt[c.img] # E.raw
+                  THEN Mismatch("checkpoint-records-changed", IF c.img \in DOMAIN rawAt THEN rawAt[c.img] ELSE "?")
              ELSE UNCHANGED <<cvars, bad, dig, rawAt>>
 
 TFetch ==
@@ -147,17 +152,15 @@ TNext ==
   /\ l <= Len(Trace)
   /\ l' = l + 1
   /\ IF E.ev = "reset"
-     THEN /\ content' = [s \in Stores |-> <<>>]
-          /\ term'    = [s \in Stores |-> s]
-          /\ gterm'   = Max(Stores)
-          /\ nextId'  = 1
+     THEN /\ log' = <<>>
+          /\ applied' = [s \in Stores |-> 0]
           /\ ckpts'   = [s \in Stores |-> {}]
           /\ flight'  = [s \in Stores |-> Idle]
           /\ snapIdx' = [s \in Stores |-> 0]
-          /\ born' = NoNames /\ asOf' = NoNames /\ gone' = {}
+          /\ born' = NoNames /\ gone' = {}
           /\ bad' = FALSE /\ dig' = NoNames /\ rawAt' = NoNames
      ELSE IF bad THEN UNCHANGED <<cvars, bad, dig, rawAt>>
-     ELSE CASE E.ev = "write"   -> TWrite
+     ELSE CASE E.ev = "apply"   -> TApply
             [] E.ev = "compact" -> TCompact
             [] E.ev = "bbegin"  -> TBegin
             [] E.ev = "bnotify" -> TNotify
